@@ -539,7 +539,15 @@ def format_fractional_rational(value: FractionalSymbolicDuration) -> str:
     """
 
     if value.denominator == 1 and value.tuple_div is None:
-        out = f"{value.numerator}/1"
+        if value.add_components is not None and len(value.add_components) > 1:
+            # a sum of whole-number durations keeps its additive components
+            # ("1/1+1/1" rather than "2/1")
+            out = "+".join(
+                f"{num}/1" if tdiv is None else value._str(num, den, tdiv)
+                for num, den, tdiv in value.add_components
+            )
+        else:
+            out = f"{value.numerator}/1"
 
     else:
         out = str(value)
